@@ -214,6 +214,7 @@ func reachableAvoiding(fn *ssa.Function, cut func(from *ssa.BasicBlock, idx int)
 
 func runC09(p *core.Program, r *core.Report) {
 	c := rc{p, r}
+	noSingledOutValue(c, []string{"trie/trie.go"}, nil)
 	workOnEveryPath(c, "trie.(*Trie).Keys", "keys collected on every path", "", "", []string{"collect"}, "Keys returns on a path that does not walk the trie: a stale or empty queue is handed out")
 	const T = "trie.(*Trie)."
 	const N = "trie.(*node)."
